@@ -5,13 +5,14 @@
 
    Generated/Conc.v is regenerated from the function bodies of /repo on every
    run (go/ast): one action program per function that touches a mutex, a
-   sync.Pool or a package-level map written after initialisation.  The checker
+   sync.Pool or a package-level variable (of any type) written after initialisation.  The checker
    [check_table] explores every control path; its soundness w.r.t. an
    interleaving semantics of any number of threads is proved in Proofs/C12.v. *)
 From Coq Require Import String List.
 Import ListNotations.
 From Mpath.Model Require Import Conc.
 From Mpath.Generated Require Import Conc.
+From Mpath.Generated Require Purity.
 From Mpath.Proofs Require C12.
 Import Mpath.Proofs.C12.
 
@@ -59,6 +60,14 @@ Print Assumptions C12_access_holds_guard.
 Theorem C12_single_mutex : forallb (fun m => table_locks_only m conc_table) conc_mutexes = true.
 Proof. vm_compute. reflexivity. Qed.
 Print Assumptions C12_single_mutex.
+
+(** the parsed operation is shared by every goroutine that evaluates it: the evaluation code (every
+    Do method, funcs.go, helpers.go) contains no statement that writes through its receiver or a
+    parameter (Generated/Purity.v, regenerated from the source on every run), so concurrent
+    evaluations only read the operation and shared documents *)
+Theorem C12_evaluation_only_reads_the_operation : Mpath.Generated.Purity.evaluation_write_sites = [].
+Proof. reflexivity. Qed.
+Print Assumptions C12_evaluation_only_reads_the_operation.
 
 (** non-vacuity: the table is not empty and mentions both caches and the pool *)
 Example C12_example :
